@@ -8,7 +8,7 @@ from __future__ import annotations
 import ast
 import os
 from dataclasses import dataclass, field
-from typing import Dict, Iterator, List, Optional, Tuple
+from typing import Set, Dict, Iterator, List, Optional, Tuple
 
 from .core import AnalysisError
 
@@ -95,10 +95,20 @@ class Repo:
                 raise AnalysisError(f"{rel} does not parse: {e}")
             inlined = []
             orig = tree
+            if name in HAND_WRITTEN and not os.environ.get("CMINX_SA_NO_FLATTEN"):
+                from .inline import expand_compiled_regexes, expand_decorators
+                try:
+                    tree = expand_compiled_regexes(tree)
+                    tree, decs = expand_decorators(tree)
+                except RecursionError:
+                    decs = []
+                inlined = list(decs)
             if (name in FLATTEN or name in FLATTEN_UNDERSCORE) and not os.environ.get("CMINX_SA_NO_FLATTEN"):
                 from .inline import flatten_module
                 try:
-                    tree, inlined = flatten_module(tree, underscore_only=name in FLATTEN_UNDERSCORE)
+                    tree, inl2 = flatten_module(tree, underscore_only=name in FLATTEN_UNDERSCORE,
+                                                imported=self._imported_private_functions(name, tree, root))
+                    inlined = inlined + inl2
                 except RecursionError:
                     tree, inlined = orig, []
             m = Module(name, p, rel, src, tree)
@@ -142,6 +152,36 @@ class Repo:
                         ci.class_attrs[t.id] = st.value
         # first definition wins for top-level names; dotted names are unique
         self.classes.setdefault(ci.name, ci)
+
+    @staticmethod
+    def _imported_private_functions(name: str, tree: ast.Module, root: str) -> Dict[str, ast.FunctionDef]:
+        """`from .sibling import _helper`: underscore-named functions imported from another hand-written module of the
+        package are helpers like local ones (their definition is read from the sibling's source)."""
+        out: Dict[str, ast.FunctionDef] = {}
+        pkg = name.split(".")
+        for st in tree.body:
+            if not isinstance(st, ast.ImportFrom):
+                continue
+            if st.level:
+                package = pkg if PY_MODULES.get(name, "").endswith("__init__.py") else pkg[:-1]
+                base = package[:len(package) - (st.level - 1)]
+                target = ".".join(base + ([st.module] if st.module else []))
+            else:
+                target = st.module or ""
+            rel = PY_MODULES.get(target)
+            if rel is None or target not in HAND_WRITTEN:
+                continue
+            wanted = [a.name for a in st.names if a.name.startswith("_") and not a.name.startswith("__") and a.asname is None]
+            if not wanted:
+                continue
+            try:
+                other = ast.parse(open(os.path.join(root, rel), encoding="utf-8").read())
+            except (OSError, SyntaxError):
+                continue
+            for n in other.body:
+                if isinstance(n, ast.FunctionDef) and n.name in wanted:
+                    out[n.name] = n
+        return out
 
     # ------------------------------------------------------------------
     def module(self, name: str) -> Module:
@@ -433,6 +473,29 @@ def guards_of(fn: ast.FunctionDef, target: ast.AST, parents: Dict[ast.AST, ast.A
             elif node is par.orelse:
                 out.append(Guard(par.test, False, "enclosing"))
         node = par
+    return out
+
+
+def guard_atoms(guards: List[Guard]) -> Set[Tuple[str, bool]]:
+    """Atomic facts (normalised test text, truth value) that follow from a list of guards: negations are unfolded, a true
+    conjunction gives its conjuncts, a false disjunction its disjuncts."""
+    out: Set[Tuple[str, bool]] = set()
+
+    def add(t: ast.expr, pol: bool):
+        while isinstance(t, ast.UnaryOp) and isinstance(t.op, ast.Not):
+            t, pol = t.operand, not pol
+        if isinstance(t, ast.BoolOp):
+            if isinstance(t.op, ast.And) and pol:
+                for v in t.values:
+                    add(v, True)
+                return
+            if isinstance(t.op, ast.Or) and not pol:
+                for v in t.values:
+                    add(v, False)
+                return
+        out.add((norm(t), pol))
+    for g in guards:
+        add(g.test, g.polarity)
     return out
 
 
